@@ -219,6 +219,28 @@ def check(case, ctx):
     ctx.tag('pdim%d' % pdim, 'rational' if sd['rational'] else 'nonrational',
             'normalized' if sd['normalize_kv'] else 'unnormalized')
     accepted = 0
+
+    def views_consistent(step):
+        # the control net as seen through every public view grew with the knot vector (rational shapes: ctrlpts, weights, ctrlptsw)
+        if not sd['rational']:
+            return True
+        order = ['weights', 'ctrlpts']
+        rng.shuffle(order)
+        got = {nm: [x if nm == 'weights' else list(x) for x in getattr(o, nm)] for nm in order}
+        pw = [list(p) for p in o.ctrlptsw]
+        n = 1
+        for s_ in G.sizes_of(o):
+            n *= s_
+        ok = len(got['weights']) == n and len(got['ctrlpts']) == n and len(pw) == n
+        if ok:
+            ok = all(abs(w - p[-1]) <= 1e-12 * max(1.0, abs(p[-1])) for w, p in zip(got['weights'], pw)) and \
+                all(abs(c * p[-1] - h) <= 1e-9 * max(1.0, abs(h)) for pt, p in zip(got['ctrlpts'], pw) for c, h in zip(pt, p[:-1]))
+        return ctx.check(ok, 'structure/views', 'step %d: after the insertion the net has %d points but weights / ctrlpts report %d / %d entries '
+                         '(or disagree with ctrlptsw)' % (step, n, len(got['weights']), len(got['ctrlpts'])), what='structure')
+    if sd['rational'] and rng.random() < 0.7:
+        o.weights
+        if rng.random() < 0.5:
+            o.ctrlpts
     for step in range(case['steps']):
         mode = rng.random()
         pre = G.snapshot(o)
@@ -293,6 +315,8 @@ def check(case, ctx):
                 return
             accepted += 1
             ctx.ok('insert-accepted')
+        if not views_consistent(step):
+            return
         # ---- the shape must not have moved (always against the ORIGINAL definition: no drift) -----------------------------
         S1 = G.defn_of_snapshot(post)
         good = [q for q in probes if so.clear_of_knots(S1, q)]
